@@ -84,6 +84,74 @@ func compilePolicyAfter(p *spec.Policy, prev string) (c *compiled, err error, pa
 		old.Assemble()
 		old.DefaultAction, old.Syscalls = sp.DefaultAction, sp.Syscalls
 		sp = old
+	case prev == "edited-conds":
+		// the same value (same pointer, same slices) compiled a previous version in which every condition had another
+		// argument index, operation and operand; then the entries were put back in place
+		ops := []seccomp.Operation{seccomp.Equal, seccomp.NotEqual, seccomp.GreaterThan, seccomp.LessThan, seccomp.BitsSet, seccomp.BitsNotSet, seccomp.GreaterOrEqual, seccomp.LessOrEqual}
+		type saved struct {
+			c *seccomp.Condition
+			v seccomp.Condition
+		}
+		var keep []saved
+		for gi := range sp.Syscalls {
+			for ni := range sp.Syscalls[gi].NamesWithCondtions {
+				cs := sp.Syscalls[gi].NamesWithCondtions[ni].Conditions
+				for ci := range cs {
+					keep = append(keep, saved{&cs[ci], cs[ci]})
+					cs[ci].Argument = (cs[ci].Argument + 1) % 6
+					cs[ci].Value = cs[ci].Value<<32 | cs[ci].Value>>32 ^ 1
+					cs[ci].Operation = ops[(len(keep)+int(cs[ci].Value&7))%len(ops)]
+					if cs[ci].Operation == keep[len(keep)-1].v.Operation {
+						cs[ci].Operation = ops[(len(keep)+int(cs[ci].Value&7)+1)%len(ops)]
+					}
+				}
+			}
+		}
+		// ... and every plain name list was rotated and began with a syscall the policy does not mention at all
+		used := map[string]bool{}
+		for _, g := range p.Groups {
+			for _, n := range g.Names {
+				used[n] = true
+			}
+			for _, ce := range g.Conds {
+				used[ce.Name] = true
+			}
+		}
+		var free []string
+		for _, n := range gen.Universe(p.Arch) {
+			if !used[n] {
+				free = append(free, n)
+			}
+		}
+		names := make([][]string, len(sp.Syscalls))
+		for gi := range sp.Syscalls {
+			n := sp.Syscalls[gi].Names
+			names[gi] = append([]string(nil), n...)
+			if len(n) > 1 {
+				copy(n, names[gi][1:])
+				n[len(n)-1] = names[gi][0]
+			}
+			if len(n) > 0 && gi < len(free) {
+				n[0] = free[gi]
+			}
+		}
+		sp.Assemble()
+		for _, k := range keep {
+			*k.c = k.v
+		}
+		for gi := range sp.Syscalls {
+			copy(sp.Syscalls[gi].Names, names[gi])
+		}
+	case prev == "other-order":
+		// the same value was compiled before while the other byte order was in effect
+		cur := seccomp.VerifByteOrder()
+		var other binary.ByteOrder = binary.BigEndian
+		if cur == binary.ByteOrder(binary.BigEndian) {
+			other = binary.LittleEndian
+		}
+		seccomp.VerifSetByteOrder(other)
+		sp.Assemble()
+		seccomp.VerifSetByteOrder(cur)
 	case prev == "unset":
 		// the architecture is left to the library, as users of the public API do (only possible for this machine's own)
 		if p.Arch == hostArchName() {
